@@ -310,3 +310,30 @@ func KindMatrix() *m.Design {
 		Services: []*m.Service{{Name: "kinds", HasHTTP: true, Methods: methods}},
 		Features: []string{"fixed-design:kind-matrix", "typed-params", "single-parameter-methods", "array-params", "default"}}
 }
+
+// MapKeyMatrix is a fixed design with body maps keyed by every integer kind and
+// by strings (Boolean and Float keys make goa gen fail: open finding
+// C01-map-key-bool-or-float-gen-fails): generated examples of such
+// maps show up in the OpenAPI documents and in the client CLI usage.
+func MapKeyMatrix() *m.Design {
+	obj := func(fs ...*m.Field) *m.Attr { return &m.Attr{Type: &m.Type{Kind: m.Object, Fields: fs}} }
+	fld := func(n string, a *m.Attr, req bool) *m.Field { return &m.Field{Name: n, Attr: a, Required: req} }
+	mp := func(k, v m.Kind) *m.Attr { return &m.Attr{Type: &m.Type{Kind: m.Map, Key: m.Prim(k), Val: m.Prim(v)}} }
+	var fs []*m.Field
+	var methods []*m.Method
+	for _, k := range []struct {
+		k    m.Kind
+		name string
+	}{{m.Int, "int"}, {m.Int32, "int32"}, {m.Int64, "int64"}, {m.UInt, "uint"}, {m.UInt32, "uint32"}, {m.UInt64, "uint64"}, {m.String, "string"}} {
+		fs = append(fs, fld("by_"+k.name, mp(k.k, m.Int64), false), fld("flags_"+k.name, mp(k.k, m.Boolean), false))
+		// the payload itself is the map (one CLI flag carries the whole map)
+		methods = append(methods, &m.Method{Name: "put_" + k.name, Payload: mp(k.k, m.Boolean), HTTP: &m.HTTPEndpoint{Routes: []m.Route{{Verb: "POST", Path: "/put/" + k.name}}}},
+			&m.Method{Name: "set_" + k.name, Payload: mp(k.k, m.Int64), HTTP: &m.HTTPEndpoint{Routes: []m.Route{{Verb: "PUT", Path: "/set/" + k.name}}}})
+	}
+	meth := &m.Method{Name: "index", Payload: obj(fs...), Result: obj(fld("n", m.Prim(m.Int), false)),
+		HTTP: &m.HTTPEndpoint{Routes: []m.Route{{Verb: "POST", Path: "/index"}}}}
+	methods = append(methods, meth)
+	return &m.Design{API: m.API{Name: "mapkeys", Title: "Map key matrix"},
+		Services: []*m.Service{{Name: "mapkeys", HasHTTP: true, Methods: methods}},
+		Features: []string{"fixed-design:map-key-matrix", "map", "non-string-map-keys"}}
+}
